@@ -251,9 +251,9 @@ def handle(ctx, results, cases, verdicts, kinds):
         if nontrivial([tuple(c.split("|")) for c in h]):
             ctx.nontrivial((kind, r["threads"], h))
         if cl != "ok":
-            cid = extra.split("@")[0]
+            cid = extra.rsplit("@", 1)[0]          # call ids may contain '@' (@seed, @shape ...): the event index is last
             f = cid.split("|")[0]
-            idx = int(extra.split("@")[1]) - 1 if "@" in extra else 0
+            idx = int(extra.rsplit("@", 1)[1]) - 1 if "@" in extra else 0
             ev = r["events"][idx] if idx < len(r["events"]) else {}
             key = "%s:%s" % (f, cl)
             if kind.startswith("threads") and cl == "result_differs_from_fresh_interpreter":
@@ -336,14 +336,18 @@ def pair_part(ctx, fp0, focus=None):
     quick = ctx.tier != "thorough"
     ents = c11_pairs.entries(ctx.tier)
     thr = c11_pairs.thread_entries()
+    joint = c11_pairs.joint_entries()
+    if focus:
+        joint = [e for e in joint if e["f"] in focus]
     if focus:
         ents = [e for e in ents if e["f"] in focus or e["f"] in ("slope", "bump")]
         thr = [e for e in thr if e["f"] in focus or e["f"] == "slope"]
-    by_c = {e["c"]: e for e in ents + thr}
+    by_c = {e["c"]: e for e in ents + thr + joint}
     by_key = {(e["f"], e["p"], e["sig"]): e for e in ents}
     procs, refproc = c11_pairs.schedules(ents, nproc=ctx.pick(11, 14))
     ref = {c: "pairs_%02d" % i for c, i in refproc.items()}
     ref.update({e["c"]: "threads_env_1" for e in thr})
+    ref.update({e["c"]: "dask_joint" for e in joint})
     jobs, kinds, envs = [], [], []
 
     def add(kind, threads, calls, numba_threads=None):
@@ -352,9 +356,11 @@ def pair_part(ctx, fp0, focus=None):
         envs.append({"NUMBA_NUM_THREADS": str(numba_threads or threads)})
     for i, calls in enumerate(procs):
         add("pairs_%02d" % i, 1, calls)
-    env_threads = (1, 2, 4, 16)
+    env_threads = (1, 4, 16) if quick else (1, 2, 4, 16)      # 2 threads: in-process via set_num_threads (and thorough)
     for n in env_threads:
-        add("threads_env_%d" % n, n, thr)
+        add("threads_env_%d" % n, n, thr + thr)          # every call twice: bit-identical repeats as well
+    if joint:
+        add("dask_joint", 4, joint)
     add("threads_set_num_threads", 16, [dict(e, set_threads=n) for n in (1, 2, 4, 16) for e in thr], numba_threads=16)
     # TLC-simulated histories over the one-parameter alphabet (cross-function interleavings)
     fs = {e["f"] for e in ents}
